@@ -93,7 +93,9 @@ def _case(draw, tier):
     nodes = list(topo)
     # an emitting gate with a waiter
     if prob(draw, 0.3):
-        t = draw(st.sampled_from([x["name"] for x in topo]))
+        waiting = [x["name"] for x in topo if x.get("wait_for")]
+        # (preferably a node that itself waits for a signal: being routed to does not exempt it from waiting for a fresh one)
+        t = draw(st.sampled_from(waiting)) if waiting and prob(draw, 0.6) else draw(st.sampled_from([x["name"] for x in topo]))
         if draw(st.booleans()):
             nodes.append({"k": "ifelse", "name": "gsig", "params": [], "defaults": {}, "t": t, "f": "END", "table": [True], "default_open": True, "emit": ["gs"]})
         else:
